@@ -123,8 +123,9 @@ class ProtectedCCS(object):
     contentType = 20
     handshakeType = None
 
-    def __init__(self):
+    def __init__(self, pad=0):
         self.was_protected = None
+        self.pad = pad      # zero bytes of TLS 1.3 record padding
 
     def write(self):
         return bytearray([1])
@@ -135,7 +136,8 @@ class ProtectedCCS(object):
         ws = rl._writeState
         if rl.version > (3, 3) and ws and ws.encContext:
             self.was_protected = True
-            body = rl._encryptThenSeal(bytearray([1, 20]), 23)
+            body = rl._encryptThenSeal(bytearray([1, 20]) +
+                                       bytearray(self.pad), 23)
             for r in rl._recordSocket.send(Message(23, body)):
                 yield r
         else:
